@@ -71,6 +71,9 @@ type C08Server struct {
 	// failure on the client side).
 	PlanOrder []int
 	reqOf     map[int]int // plan index -> index into Requests
+	// FailFinalWrite[i]: once request i is complete, the client's next write (the final return of
+	// a 1.1 request) fails
+	FailFinalWrite map[int]bool
 	// Mute: the server is dead, it neither echoes nor answers (used together with a read fault)
 	Mute    bool
 	corking bool     // output is being collected until the final return of the request arrives
@@ -220,6 +223,9 @@ func (x *C08Server) behave(ri int, _ NCRequest) NCReply {
 		return NCReply{Never: true}
 	}
 	x.reqOf[i] = ri
+	if x.FailFinalWrite[i] {
+		x.WriteErrAfter = x.Written
+	}
 	p := x.Plans[i]
 	if rg, ok := x.Rogue[i]; ok {
 		fr := x.Frame(NCReply{Payload: rg})
